@@ -202,6 +202,14 @@ def check_honest(ids, matches, ctx, fields=None):
         require([bytes(p) for p in proved] == [t[::-1] for t in matched], "proof/proved_ids_differ",
                 lambda: f"n={n} matched idx={[i for i, m in enumerate(matches) if m][:20]} "
                         f"got {len(proved)} ids want {len(matched)}")
+        # validating is a question about the proof, not an operation that uses it up: the same object
+        # gives the same answer and the same ids when asked again
+        st_, ok2 = attempt(mb.is_valid)
+        require(st_ == "ok" and ok2 is True, "proof/honest_proof_rejected_on_second_validation",
+                f"n={n} via={via}: {ok2!r}")
+        proved2 = must(mb.proved_txs, "proof/proved_txs")
+        require([bytes(p) for p in proved2] == [t[::-1] for t in matched],
+                "proof/proved_ids_differ_on_second_validation", f"n={n} via={via}")
 
 
 def exhaustive_enum(tier):
